@@ -1,59 +1,150 @@
 /* VERIF-UNIT
 {
  "name": "dirinfo_get",
- "props": ["C01", "C02"],
+ "props": [
+  "C01",
+  "C02"
+ ],
  "level": "U",
  "tier": "wip",
  "harness": "h_di_get",
- "enforce": ["e2fsck_get_dir_info"],
+ "enforce": [
+  "e2fsck_get_dir_info"
+ ],
  "loop_contracts": true,
- "includes": ["e2fsck", "lib/support"],
- "defines": ["EXT2_CUSTOM_MEMORY_ROUTINES", "DI_GET"],
+ "includes": [
+  "e2fsck",
+  "lib/support"
+ ],
+ "defines": [
+  "EXT2_CUSTOM_MEMORY_ROUTINES",
+  "DI_GET"
+ ],
  "unwind": 10,
  "unwind_reason": "no loop of the real code is unwound (in-place loop contract); 10 covers the loops of the contract-instrumentation library",
- "functions": ["e2fsck/dirinfo.c:e2fsck_get_dir_info"],
- "assumes": ["in-memory array mode (tdb == NULL); 1 <= count <= size <= 2^30: the database exists only after the first e2fsck_add_dir_info, so count >= 1 (with count == 0 the real code would read array[0xffffffff])",
-	     "well_formed (strictly ascending inode numbers) enters as INSTANCES: first and last entry, lower bound of the inode number, last_lookup, and every entry the binary search probes (ghost statement VERIF_GHOST_GET_DIR_INFO_PROBE)",
-	     "needs the anchors of hooks-pending/ds.diff in e2fsck/dirinfo.c"],
+ "functions": [
+  "e2fsck/dirinfo.c:e2fsck_get_dir_info"
+ ],
+ "assumes": [
+  "in-memory array mode (tdb == NULL); 1 <= count <= size <= 2^30: the database exists only after the first e2fsck_add_dir_info, so count >= 1 (with count == 0 the real code would read array[0xffffffff])",
+  "well_formed (strictly ascending inode numbers) enters as INSTANCES: first and last entry, lower bound of the inode number, last_lookup, and every entry the binary search probes (ghost statement VERIF_GHOST_GET_DIR_INFO_PROBE)",
+  "needs the anchors of hooks-pending/ds.diff in e2fsck/dirinfo.c"
+ ],
  "native": false
 }
 */
 /* VERIF-UNIT
 {
  "name": "dirinfo_accessors",
- "props": ["C01", "C02"],
+ "props": [
+  "C01",
+  "C02"
+ ],
  "level": "U",
  "tier": "wip",
  "harness": "h_di_acc",
  "loop_contracts": true,
- "includes": ["e2fsck", "lib/support"],
- "defines": ["EXT2_CUSTOM_MEMORY_ROUTINES", "DI_ACC"],
+ "includes": [
+  "e2fsck",
+  "lib/support"
+ ],
+ "defines": [
+  "EXT2_CUSTOM_MEMORY_ROUTINES",
+  "DI_ACC"
+ ],
  "unwind": 10,
  "unwind_reason": "no loop of the real code is unwound (in-place loop contract in e2fsck_get_dir_info); 10 covers the loops of the contract-instrumentation library",
- "functions": ["e2fsck/dirinfo.c:e2fsck_dir_info_set_parent", "e2fsck/dirinfo.c:e2fsck_dir_info_set_dotdot", "e2fsck/dirinfo.c:e2fsck_dir_info_get_parent", "e2fsck/dirinfo.c:e2fsck_dir_info_get_dotdot", "e2fsck/dirinfo.c:e2fsck_get_dir_info"],
- "assumes": ["as dirinfo_get; the contract of each accessor is stated by the harness (ASSUME precondition, CHECK postconditions), the real e2fsck_get_dir_info runs inside"],
- "native": false
+ "functions": [
+  "e2fsck/dirinfo.c:e2fsck_dir_info_set_parent",
+  "e2fsck/dirinfo.c:e2fsck_dir_info_set_dotdot",
+  "e2fsck/dirinfo.c:e2fsck_dir_info_get_parent",
+  "e2fsck/dirinfo.c:e2fsck_dir_info_get_dotdot",
+  "e2fsck/dirinfo.c:e2fsck_get_dir_info"
+ ],
+ "assumes": [
+  "as dirinfo_get; the contract of each accessor is stated by the harness (ASSUME precondition, CHECK postconditions), the real e2fsck_get_dir_info runs inside"
+ ],
+ "native": false,
+ "backend": "cadical"
 }
 */
 /* VERIF-UNIT
 {
- "name": "dirinfo_add",
- "props": ["C01", "C02"],
+ "name": "dirinfo_add_room",
+ "props": [
+  "C01",
+  "C02"
+ ],
  "level": "U",
  "tier": "wip",
  "harness": "h_di_add",
- "enforce": ["e2fsck_add_dir_info"],
+ "enforce": [
+  "e2fsck_add_dir_info"
+ ],
  "loop_contracts": true,
- "includes": ["e2fsck", "lib/support"],
- "defines": ["EXT2_CUSTOM_MEMORY_ROUTINES", "DI_ADD", "fprintf(...)=di_fprintf()"],
+ "includes": [
+  "e2fsck",
+  "lib/support"
+ ],
+ "defines": [
+  "EXT2_CUSTOM_MEMORY_ROUTINES",
+  "DI_ADD",
+  "fprintf(...)=di_fprintf()",
+  "DI_SCEN_ROOM"
+ ],
  "unwind": 10,
  "unwind_reason": "no loop of the real code is unwound (in-place loop contracts on the backward scan and on the shift); 10 covers the loops of the contract-instrumentation library",
- "functions": ["e2fsck/dirinfo.c:e2fsck_add_dir_info"],
- "assumes": ["in-memory array mode, the database exists (setup_db, the profile / tdb set-up, is outside this unit); count <= size <= 2^30",
-	     "well_formed enters as INSTANCES: last entry, lower bounds of the new inode number and of the ghost inode and their predecessors, the ghost index and its predecessor, and the entry in front of the position the backward scan stops at (ghost statement VERIF_GHOST_ADD_DIR_INFO_FOUND = assume of the instance at i-1; the array has not been written before, a realloc keeps the contents)",
-	     "realloc by a ghost-index specification (new or same object, contents kept at the ghost indices); when it fails the real code calls fatal_error, which does not return (stub: end of path)",
-	     "fprintf is mapped to a fixed-arity stub (variadic calls cannot pass the frame instrumentation)"],
- "native": false
+ "functions": [
+  "e2fsck/dirinfo.c:e2fsck_add_dir_info"
+ ],
+ "assumes": [
+  "in-memory array mode, the database exists (setup_db, the profile / tdb set-up, is outside this unit); count <= size <= 2^30",
+  "well_formed enters as INSTANCES: last entry, lower bounds of the new inode number and of the ghost inode and their predecessors, the ghost index and its predecessor, and the entry in front of the position the backward scan stops at (ghost statement VERIF_GHOST_ADD_DIR_INFO_FOUND = assume of the instance at i-1; the array has not been written before, a realloc keeps the contents)",
+  "fprintf is mapped to a fixed-arity stub (variadic calls cannot pass the frame instrumentation)",
+  "scenario 'room': count < size (the resize is unreachable: obligation); count == size is dirinfo_add_grow"
+ ],
+ "native": false,
+ "backend": "cadical"
+}
+*/
+/* VERIF-UNIT
+{
+ "name": "dirinfo_add_grow",
+ "props": [
+  "C01",
+  "C02"
+ ],
+ "level": "U",
+ "tier": "wip",
+ "harness": "h_di_add",
+ "enforce": [
+  "e2fsck_add_dir_info"
+ ],
+ "loop_contracts": true,
+ "includes": [
+  "e2fsck",
+  "lib/support"
+ ],
+ "defines": [
+  "EXT2_CUSTOM_MEMORY_ROUTINES",
+  "DI_ADD",
+  "fprintf(...)=di_fprintf()",
+  "DI_SCEN_GROW"
+ ],
+ "unwind": 10,
+ "unwind_reason": "no loop of the real code is unwound (in-place loop contracts on the backward scan and on the shift); 10 covers the loops of the contract-instrumentation library",
+ "functions": [
+  "e2fsck/dirinfo.c:e2fsck_add_dir_info"
+ ],
+ "assumes": [
+  "in-memory array mode, the database exists (setup_db, the profile / tdb set-up, is outside this unit); count <= size <= 2^30",
+  "well_formed enters as INSTANCES: last entry, lower bounds of the new inode number and of the ghost inode and their predecessors, the ghost index and its predecessor, and the entry in front of the position the backward scan stops at (ghost statement VERIF_GHOST_ADD_DIR_INFO_FOUND = assume of the instance at i-1; the array has not been written before, a realloc keeps the contents)",
+  "realloc by a ghost-index specification (new or same object, contents kept at the ghost indices); when it fails the real code calls fatal_error, which does not return (stub: end of path)",
+  "fprintf is mapped to a fixed-arity stub (variadic calls cannot pass the frame instrumentation)",
+  "scenario 'grow': count == size (the array is resized by 10 entries); count < size is dirinfo_add_room"
+ ],
+ "native": false,
+ "backend": "cadical"
 }
 */
 /*
@@ -127,6 +218,10 @@ int di_gExA;
 	if (i > 0) \
 		__CPROVER_assume(FSCKDS_PART(DI_ARR[i - 1].ino, (unsigned long long) (i - 1), DI_CNT, (unsigned long long) ino, di_gPA)); \
 	__CPROVER_assert((unsigned long long) i == di_gPA, "the backward scan stops at the lower bound of the inode number");
+/* the slot of the new entry, in its typed form (dir is merged from two places and, after a realloc, over two objects) */
+#define VERIF_GHOST_ADD_DIR_INFO_DIR \
+	__CPROVER_assert(di_gPA < DI_CNT && dir == &DI_ARR[di_gPA], "the entry is written at the lower bound of the inode number"); \
+	dir = &DI_ARR[di_gPA];
 /* shift of the tail by one (count has already been incremented: the old count is di_gCount0) */
 #define DI_EQ(e, o) ((e).ino == (o)[0] && (e).dotdot == (o)[1] && (e).parent == (o)[2])
 #define VERIF_INV_ADD_DIR_INFO_SHIFT \
@@ -160,6 +255,10 @@ long ext2fs_resize_mem(unsigned long old_size, unsigned long size, void *ptr)
 	struct dir_info **pp = (struct dir_info **) ptr, *old = *pp, *new;
 	unsigned long long nold = old_size / sizeof(*old), nnew = size / sizeof(*old);
 
+#ifdef DI_SCEN_ROOM
+	__CPROVER_assert(0, "scenario 'room': the array is never resized");
+	__CPROVER_assume(0);
+#endif
 	__CPROVER_assert(__CPROVER_r_ok(old, old_size), "realloc: old_size bytes of the old array are allocated");
 	__CPROVER_assert(size % sizeof(*old) == 0 && size >= old_size, "realloc: whole entries, the array only grows");
 	DI_KEEP(0, di_gI); DI_KEEP(1, di_gI - 1); DI_KEEP(2, di_gPA); DI_KEEP(3, di_gPA - 1); DI_KEEP(4, di_gPK);
@@ -295,6 +394,11 @@ static void build(void)
 	di_gCount0 = IN.count;
 	di_oI[0] = IN.oi[0]; di_oI[1] = IN.oi[1]; di_oI[2] = IN.oi[2];
 	di_oIm[0] = IN.oim[0]; di_oIm[1] = IN.oim[1]; di_oIm[2] = IN.oim[2];
+#if defined(DI_SCEN_ROOM)
+	ASSUME(IN.count < IN.size);
+#elif defined(DI_SCEN_GROW)
+	ASSUME(IN.count == IN.size);
+#endif
 }
 
 void h_di_get(void)
@@ -359,16 +463,16 @@ void h_di_add(void)
 #ifdef DI_ADD
 	build();
 	e2fsck_add_dir_info(&CTX, IN.a, IN.x);
-	if (IN.count > 3 && IN.count < IN.size && !IN.exa && IN.pa == 1 && IN.i == 2 && IN.k > IN.a)
-		REACH("out of order: insert in the middle, room");
-	if (IN.count > 3 && IN.count == IN.size && !IN.exa && IN.pa == 1)
-		REACH("out of order: insert in the middle, array grown");
+	if (IN.count > 3 && !IN.exa && IN.pa == 1 && IN.i == 2 && IN.k > IN.a)
+		REACH("out of order: insert in the middle");
 	if (IN.count > 0 && IN.pa == IN.count)
 		REACH("in order: append");
 	if (IN.count > 3 && IN.exa && IN.pa == 2)
 		REACH("entry exists");
+#ifndef DI_SCEN_GROW
 	if (IN.count == 0)
 		REACH("first entry");
+#endif
 	REACH("end");
 #endif
 }
